@@ -49,6 +49,19 @@ def diagnostic_treebuilder(chk, maxlen):
         vf.log(f"[diagnostic] builder model not evaluated: {str(e)[:200]}")
 
 
+def diagnostic_script(chk, name, *args):
+    """Runs `bin/diag <name>` and stores what it printed in the evidence (rule 4.5: never part of the verdict)."""
+    import subprocess
+    try:
+        r = subprocess.run([os.path.join(vf.ROOT, "bin", "diag"), name] + [str(a) for a in args], stdout=subprocess.PIPE,
+                           stderr=subprocess.STDOUT, text=True, timeout=3000)
+        lines = [l for l in r.stdout.splitlines() if not l.startswith("[")]
+        chk.extra[f"diagnostic_{name}"] = {"exit": r.returncode, "output": lines[-12:]}
+        vf.log(f"[diagnostic] {name}: " + (lines[-1][:200] if lines else "no output") + " (not part of the verdict)")
+    except Exception as e:  # a diagnostic never breaks a check
+        chk.extra[f"diagnostic_{name}"] = {"error": str(e)[:300]}
+
+
 def c13(chk):
     chk.rule = ("every token sequence up to the length bound over the named alphabets is classified by Grammar.tla; "
                 "non-trivial = distinct sequences of class IF (not derivable: unbalanced, missing operand, juxtaposition)")
@@ -94,7 +107,7 @@ def c02(chk):
                 "non-trivial = distinct well-formed sequences of at least three tokens")
     rel = {"wf_tree", "panic"}
     if chk.tier == "quick":
-        ast_model(chk, "few")
+        ast_model(chk, "mid")
         ast_model(chk, "cater")
         tokens(chk, "ops", 4, rel, ["wf_len3"])
         tokens(chk, "core", 4, rel, ["wf_len3"])
@@ -290,6 +303,8 @@ def c12(chk):
     traces(chk, "programs", "trace_programs",
            note="random programs, each through a random one of the 48 entry points (string / tree level, eight result kinds, "
                 "fresh / shared / mutable context)")
+    if chk.tier != "quick":
+        diagnostic_script(chk, "cli", 3)
     repo_tests(chk)
 
 
@@ -353,6 +368,8 @@ def c06(chk):
            note="random integers in [0, 2^63) in decimal / hex, random finite doubles in nine renderings (shortest, e, E, e+, E+, "
                 "leading / trailing dot, fixed, Display), random Unicode strings quoted; alone and glued (lit-lit, a-lit, (lit,lit), "
                 "x=lit;x); the recorded tree and value must be the specification's")
+    if chk.tier != "quick":
+        diagnostic_script(chk, "tokenizer", 5)
 
 
 def c07(chk):
